@@ -331,26 +331,34 @@ Definition ex_stack0 (ls : list (list Z)) := concat ls.
 
 (** ** array-based PRSS of zero vs the list-based version (thresha.py)
     pseudorandom_share_zero:  y = 0; for j in range(d): y = (y + prl[h*d+j]) * i1      (Horner)
-    np_pseudorandom_share_0:  prl.reshape(n, d) @ [i1^1, ..., i1^d]                     (power sum)
-    On the same PRF block r = prl[h*d : (h+1)*d] the two differ by the order in which the block is
-    consumed: the array version on r equals the list version on rev r (as for np_random_split, the
-    array variant is the list variant on a permuted tape). *)
-Require Import MPyC.Field MPyC.Poly MPyC.SecPoly.
+    np_pseudorandom_share_0:  prl.reshape(n, d) @ [i1^d, ..., i1^1]                     (power sum)
+    On the same PRF block r = prl[h*d : (h+1)*d] the two terms are equal. *)
+Require Import MPyC.Field MPyC.Poly.
 Section PrssZero.
 Variable K : FieldT.
 Add Field KFarr : (fth K).
 
 Definition np_prss0_term (r : list K) (x : K) : K :=
-  fsum (map (fun j => fmul K (nth j r (f0 K)) (fpow x (S j))) (seq 0 (length r))).
+  fsum (map (fun j => fmul K (nth j r (f0 K)) (fpow x (length r - j))) (seq 0 (length r))).
 Definition list_prss0_term (r : list K) (x : K) : K := horner_code r x.
 
-Theorem np_prss0_agree (r : list K) (x : K) : np_prss0_term r x = list_prss0_term (rev r) x.
+Lemma horner_code_snoc (r : list K) (c x : K) :
+  horner_code (r ++ [c]) x = fmul K (fadd K (horner_code r x) c) x.
+Proof. unfold horner_code. rewrite fold_left_app. reflexivity. Qed.
+
+Theorem np_prss0_agree (r : list K) (x : K) : np_prss0_term r x = list_prss0_term r x.
 Proof.
   unfold np_prss0_term, list_prss0_term.
-  transitivity (fmul K x (sp_call r x)).
-  - unfold sp_call. rewrite <- fsum_map_scale. apply fsum_map_ext. intros j _. simpl. ring.
-  - rewrite call_horner.
-    pose proof (horner_code_eval K (rev r) (f0 K) x) as H. rewrite rev_involutive in H.
-    simpl in H. transitivity (fadd K (horner_code (rev r) x) (f0 K)); [rewrite H; ring|ring].
+  induction r as [|c r IH] using rev_ind; [reflexivity|].
+  rewrite horner_code_snoc, <- IH, app_length. cbn [length].
+  replace (length r + 1) with (S (length r)) by lia.
+  rewrite seq_S, map_app, fsum_app. cbn [map fsum plus].
+  rewrite app_nth2 by lia. rewrite Nat.sub_diag. cbn [nth].
+  replace (S (length r) - length r) with 1 by lia. cbn [fpow].
+  transitivity (fadd K (fmul K x (fsum (map (fun j => fmul K (nth j r (f0 K)) (fpow x (length r - j))) (seq 0 (length r)))))
+                       (fmul K c x)).
+  - f_equal; [|ring]. rewrite <- fsum_map_scale. apply fsum_map_ext. intros j Hj. apply in_seq in Hj.
+    rewrite app_nth1 by lia. replace (S (length r) - j) with (S (length r - j)) by lia. cbn [fpow]. ring.
+  - ring.
 Qed.
 End PrssZero.
